@@ -342,5 +342,13 @@ def au_post(ctx, st, result):
 UNITS.append(Unit("C09", "jsonargparse._formatters:DefaultHelpFormatter.add_usage", au_setup, au_post, None, expect_cover=("return",),
                   trusted=["argparse.HelpFormatter.add_usage (super()) only reads its arguments"]))
 
+# handle_subcommands answers from its arguments alone: it does not read parse_kwargs, the one context variable that is set and never reset
+from contracts.share import shared as _shared  # noqa: E402
+UNITS += _shared("C09", "contracts.c17", "_ActionSubCommands.handle_subcommands")
+
+# the arms that receive the previous value (which may be the parser's own declared default object) build a new value, they never write into it
+from contracts.adapt_arms import arms_units as _arms_units  # noqa: E402
+UNITS += [u for u in _arms_units("C09") if u.label in ("List:append-and-sub-options", "Dict:item-option")]
+
 from contracts.share import carried as _carried  # noqa: E402
 UNITS += _carried("C09")
